@@ -446,6 +446,11 @@ func writeReplay(dir string, i int, o *Obligation, tmo int, guard bool) replayIn
 	executable := false
 	if o.Res.Status == "sat" && o.SMT != "" {
 		solver := strings.TrimSuffix(o.Res.Solver, "+split")
+		if o.Res.SatSMT != "" {
+			// the counterexample was found on one branch of the case split: models and values come from that query
+			o.SMT = o.Res.SatSMT
+			os.WriteFile(filepath.Join(dir, base+".smt2"), []byte(o.SMT), 0o644)
+		}
 		model := getModel(o.SMT, solver, tmo, dir, base)
 		fmt.Fprintf(&b, "model (%s):\n%s\n", solver, model)
 		if rp := tryReplay(dir, base, o, model); rp != "" {
